@@ -42,6 +42,9 @@ def handlers : List (String × Handler) := [
   ("ensurelist", fun j => do
     let r := ensureListForNodes (← argOf (← field j "x")) (← natOf (← field j "n")) (← optOf ratOf (fieldD j "default" .null))
     pure <| match r with | none => jObj [("error", .str "ValueError")] | some l => jList jOptRat l),
+  ("ensuretime", fun j => do
+    let r := ensureListForTimePeriods (← argOf (← field j "x")) (← natOf (← field j "T"))
+    pure <| match r with | none => jObj [("error", .str "ValueError")] | some l => jList jOptRat l),
   ("ensuredict", fun j => do
     let r := ensureDictForNodes (← argOf (← field j "x")) (← listOf intOf (← field j "idx")) (← optOf ratOf (fieldD j "default" .null))
     pure <| match r with
